@@ -219,6 +219,18 @@ func c04Folds(li *rig.ListInfo, w *c04Write, pre []reflect.Value, urs []rig.Upda
 		}
 		return nil, false
 	}
+	if w.selIds >= 0 && w.selIds != w.u.SelKey {
+		return nil, false // a selector write that renumbers the selected element: the result is not fixed
+	}
+	if c04AddressesDup(li, w, pre) {
+		return nil, false // which of several elements with the same identifiers a write means is not fixed
+	}
+	if w.bare {
+		if len(urs) != 1 {
+			return nil, false
+		}
+		return c04BareFolds(li, pre, urs[0]), true
+	}
 	cands = [][]reflect.Value{pre}
 	for _, ur := range urs {
 		var next [][]reflect.Value
